@@ -55,11 +55,13 @@ class Model:
 I_A = Itf('VfIA', (Ev('e0', 'in'), Ev('o0', 'out')))
 I_B = Itf('VfIB', (Ev('e1', 'in', 'Res', (('a', 'in', 'TInt'), ('b', 'out', 'TBlob'), ('c', 'inout', 'TInt'))),
                  Ev('e2', 'in', 'void', (('s', 'in', 'TStr'),)),
+                 Ev('e3', 'in', 'Res', (('x', 'in', 'TInt'), ('y', 'in', 'TInt'), ('z', 'inout', 'TInt'), ('w', 'out', 'TInt'))),
+                 Ev('o3', 'out', 'void', (('x', 'in', 'TInt'), ('y', 'in', 'TInt'), ('t', 'in', 'TStr'), ('u', 'in', 'TStr'))),
                  Ev('o1', 'out', 'void', (('a', 'in', 'TInt'), ('b', 'in', 'TBlob'))),
                  Ev('o2', 'out')), has_res=True)
 I_C = Itf('VfIC', (Ev('Claim', 'in', 'Res'), Ev('Release', 'in'),
-                 Ev('Work', 'in', 'Res', (('a', 'in', 'TInt'),)),
-                 Ev('Done', 'out'), Ev('Fail', 'out', 'void', (('x', 'in', 'TBlob'),))), has_res=True)
+                 Ev('Work', 'in', 'Res', (('a', 'in', 'TInt'), ('b', 'in', 'TInt'))),
+                 Ev('Done', 'out'), Ev('Fail', 'out', 'void', (('x', 'in', 'TBlob'), ('y', 'in', 'TBlob')))), has_res=True)
 # claim / release under other names and with formals; an unrelated event is literally called Release
 I_C2 = Itf('VfIC2', (Ev('Acquire', 'in', 'Res', (('who', 'in', 'TInt'), ('tok', 'out', 'TInt'))),
                    Ev('GiveBack', 'in', 'void', (('who', 'in', 'TInt'),)),
